@@ -106,17 +106,29 @@ def parse_q(s):
 
 
 # ---------------------------------------------------------------- tie analysis (exact)
-def unique_nearest_columns(src, dst, rel=1e-9):
-    """names of the target columns whose nearest source centre is unique by a clear margin
-    (exact rational arithmetic on the doubles)."""
-    sc = [(fr(c.centre[0]), fr(c.centre[1])) for c in src.columnlist]
-    ok = set()
+def column_tie_classes(src, dst, rel=1e-9):
+    """for every target column: (class, names of the source columns at exactly minimal distance, names of those
+    within the relative margin), class = 'unique' (clear margin to the runner-up), 'exact-tie' (two or more
+    source centres at EXACTLY the same minimal distance: any of them is a valid answer, nearest_spec /
+    any_tie_resolution_is_valid) or 'near-tie' (runner-up within the margin but not equal: the only place where
+    double rounding can make the implementation differ from the exact model).  Exact rational arithmetic."""
+    sc = [(c.name, fr(c.centre[0]), fr(c.centre[1])) for c in src.columnlist]
+    out = {}
     for c in dst.columnlist:
         x, y = fr(c.centre[0]), fr(c.centre[1])
-        d2 = sorted((x - a) ** 2 + (y - b) ** 2 for a, b in sc)
-        if len(d2) == 1 or d2[1] - d2[0] > rel * (d2[1] + d2[0] + Fraction(1, 10 ** 12)):
-            ok.add(c.name)
-    return ok
+        d2 = sorted(((x - a) ** 2 + (y - b) ** 2, n) for n, a, b in sc)
+        dmin = d2[0][0]
+        exact = [n for d, n in d2 if d == dmin]
+        near = [n for d, n in d2 if d - dmin <= rel * (d + dmin + Fraction(1, 10 ** 12))]
+        cls = 'unique' if len(near) == 1 else ('exact-tie' if len(exact) == len(near) else 'near-tie')
+        out[c.name] = (cls, exact, near)
+    return out
+
+
+def unique_nearest_columns(src, dst, rel=1e-9, classes=None):
+    """names of the target columns whose nearest source centre is unique by a clear margin."""
+    classes = classes or column_tie_classes(src, dst, rel)
+    return set(n for n, v in classes.items() if v[0] == 'unique')
 
 
 def comparable_layers(src, dst, rel=1e-9):
